@@ -1,6 +1,7 @@
 # -*- coding: utf-8 -*-
 
 from vsg import token
+from vsg.rules import case_utils
 from vsg.vhdlFile.extract import tokens
 
 
@@ -176,6 +177,8 @@ def create_tois(lAllDicts, oFile):
                 for iIdentifier in dDict["identifiers"]:
                     iLine = oTokenMap.get_line_number_of_index(iName)
                     sName = oFile.lAllObjects[iName].get_value()
+                    if case_utils.does_not_contain_any_alpha_characters(sName):
+                        break
                     sIdentifier = oFile.lAllObjects[iIdentifier].get_value()
                     if sIdentifier.lower() == sName.lower():
                         if not sIdentifier == sName:
